@@ -25,7 +25,7 @@ def run(ctx: Ctx) -> None:
     ctx.rule("C14.R2", "a failed startup aborts: asyncio re-raises the finished lifespan task's exception before creating servers; trio runs handle_lifespan in a nursery enclosing the servers; asgi_send raises LifespanFailureError for *.failed and handle_lifespan re-raises it", floor=8)
     ctx.rule("C14.R3", "startup/shutdown waits are bounded by config.startup_timeout / config.shutdown_timeout and turn the timeout into LifespanTimeoutError", floor=4)
     ctx.rule("C14.R4", "lifespan.shutdown is requested from exactly one call site per worker, outside any loop, after the connection-drain construct", floor=4)
-    ctx.rule("C14.R5", "each connection gets ConnectionState(<lifespan state>.copy()) built inside the per-connection handler", floor=2)
+    ctx.rule("C14.R5", "each connection gets ConnectionState(<lifespan state>.copy()) built inside the per-connection handler; the dict copied is the very object given to (and stored by) the Lifespan", floor=6)
     ctx.rule("C14.R6", "unsupported lifespan: the generic except arm marks it unsupported and logs; the finally releases both waits; waits return at once when unsupported", floor=6)
     ctx.rule("C14.R7", "wait_for_startup sends exactly lifespan.startup, wait_for_shutdown exactly lifespan.shutdown; *.complete messages release the matching wait", floor=8)
 
@@ -167,7 +167,21 @@ def run(ctx: Ctx) -> None:
         ok = ok and len(sc) == 1 and "'type': 'lifespan'" in norm(sc[0].value) and "'state': self.state" in norm(sc[0].value)
         ctx.check("C14.R7", f"{mod}:Lifespan.handle_lifespan", "app(lifespan scope with state, asgi_receive, asgi_send)", ok, "the lifespan scope must carry the shared state dict", hl)
 
-    # R5
+    # R5: the lifespan scope and the connections must share ONE dict object (the worker's), copied per connection
+    for mod, wmod in (("asyncio.lifespan", "asyncio.run"), ("trio.lifespan", "trio.run")):
+        ini = repo.func(mod, "Lifespan.__init__")
+        params = [a.arg for a in ini.args.args]
+        st = [n for n in walk_local(ini) if isinstance(n, (ast.Assign, ast.AnnAssign)) and dotted(n.targets[0] if isinstance(n, ast.Assign) else n.target) == "self.state"]
+        ok = len(st) == 1 and isinstance(st[0].value, ast.Name) and st[0].value.id in params and not guard_atoms(st[0])
+        ctx.check("C14.R5", f"{mod}:Lifespan.__init__", "self.state is the dict object it was given (no copy, no `or {}`, no default)", ok, f"self.state = {norm(st[0].value) if st else '?'}: the lifespan scope would write into a different dict from the one the connections copy (an empty dict is falsy, so `x or {{}}` replaces it): connections never see what startup stored", st[0] if st else ini)
+        ws_ = repo.func(wmod, "worker_serve")
+        lc = [c for c in calls(ws_) if call_name(c) == "Lifespan"]
+        okw = len(lc) == 1 and st and isinstance(st[0].value, ast.Name)
+        if okw:
+            idx = params.index(st[0].value.id) - 1 if st[0].value.id in params else -1
+            passed = arg(lc[0], idx, st[0].value.id) if idx >= 0 else None
+            okw = passed is not None and norm(passed) == "lifespan_state"
+        ctx.check("C14.R5", f"{wmod}:worker_serve", "Lifespan(..., lifespan_state): the dict the connections copy is the one given to the lifespan", bool(okw), "the lifespan scope and the connections do not share the worker's state dict", lc[0] if lc else ws_)
     for mod in ("asyncio.tcp_server", "trio.tcp_server"):
         run_ = repo.func(mod, "TCPServer.run")
         pw = [c for c in calls(run_) if call_name(c) == "ProtocolWrapper"]
